@@ -470,9 +470,11 @@ pub(crate) fn verify_requested_restrictions(
     received_predicates: &HashMap<String, Identifier>,
     self_attested_attrs: &HashSet<String>,
 ) -> Result<()> {
-    let proof_attr_identifiers: HashMap<String, Identifier> = received_revealed_attrs
+    // a referent that the presentation lists both as revealed and as unrevealed is restricted
+    // through the credential that reveals its value (later entries replace earlier ones)
+    let proof_attr_identifiers: HashMap<String, Identifier> = received_unrevealed_attrs
         .iter()
-        .chain(received_unrevealed_attrs)
+        .chain(received_revealed_attrs)
         .map(|(r, id)| (r.to_string(), id.clone()))
         .collect();
 
